@@ -104,4 +104,9 @@ CHECKS = {
   "text": "28 histories per quick run (one per minimiser name plus 16 mixed histories), 1300 thorough. Exploration level; convergence quality is not asserted.",
   "note": "Trusted: the harness's bookkeeping of configured constraints (fix_var, var_equal, var_range, gauss_constr), NLL from a freshly built FCN on the same samples. Hessian-based minimisers get 30/60-event samples (no maxiter option exists for them).",
  },
+ "C09": {
+  "technique": "property-based testing against first-order propagation: Hypothesis expression trees over value+-error numbers (numeric derivatives as oracle), random covariance matrices and expressions for ParamsTrans (J V J^T with finite-difference J), fit-fraction errors and parameter errors of generated likelihood cases against finite-difference gradients / Hessians, bound-transformed covariance against D V D",
+  "text": "About 3500 cases per quick run (3300 arithmetic expressions, 160 covariance cases, 16 fit-fraction and 12 parameter-error cases); 7e4 thorough. Exploration level.",
+  "note": "Trusted: central finite differences (Richardson where used), numpy linear algebra. Non-positive-definite Hessians and expression points near singularities are outside the asserted domain and counted.",
+ },
 }
